@@ -3,6 +3,7 @@ import FractopoModel.Generated.JunctionShift
 import FractopoModel.Generated.ValidatorTable
 import FractopoModel.Spec.Validators
 import FractopoModel.Lemmas.NodeJunctions
+import FractopoModel.Lemmas.IntersectionFilter
 /-!
 # C02 — validation verdicts on crisp configurations
 
@@ -110,6 +111,21 @@ theorem C02_no_marks_when_separated {P : Type} (dist : P → P → Rat) (o : Lis
     obtain ⟨y, hy, hne, hd⟩ := (NodeJunctions.mem_hits dist o f d a pt b).mp hb
     exact hsep a b pt y ha hy hne hd
   simp [hnil]
+
+/-- **Which intersection points count as intersections.** The regenerated `determine_valid_intersection_points_no_vnode` (four nested
+loops, flags switched off in place) keeps an intersection point of the trace exactly when it is NOT close to an end of the trace
+that coincides with an end of some candidate -- every such point is dropped, whatever the order of candidates, ends and points
+and however many of them there are (a shared end is a V-node and is judged from the end points; a third trace through that
+point still has its own intersection there). -/
+theorem C02_generated_intersection_filter {L P : Type} (inter : List P) (ends_of : L → List P) (close : P → P → Bool) (cands : List L) (geom : L) :
+    Gen.intersection_points_no_vnode inter ends_of close cands geom =
+      inter.filter fun p => !((IntersectionFilter.activeEnds ends_of close cands geom).any fun ge => close ge p) :=
+  IntersectionFilter.generated_eq_spec inter ends_of close cands geom
+
+/-- non-vacuity: the trace (ends 0, 9) shares end 0 with a candidate (ends 0, 5); of its intersection points 0, 0 and 4 both copies
+of 0 are dropped -/
+example : Gen.intersection_points_no_vnode [0, 0, 4] (fun (l : Nat × Nat) => [l.1, l.2]) (fun (a b : Nat) => a == b) [(0, 5), (7, 8)] (0, 9) = [4] := by
+  decide
 
 /-- non-vacuity: traces 0 and 1 share an end (distance 0), trace 2 is far: with threshold 1 the first two are marked -/
 example :
